@@ -23,11 +23,10 @@ META = {
     "technique": ("Coq theorems over a hand model of request.py/vfs.py/server.py path translation composed with a model of the "
                   "dromedary joinpath/escape/unescape/pathfilter/chroot/local-transport pipeline + correspondence on generated "
                   "client paths through a real BzrServerFactory backing transport over a scratch tree with outside sentinels"),
-    "level_text": ("Non-VFS verbs: proved for every byte string and every root client path that the path handed to the OS has no "
-                   "'..' segment (never leaves the served directory). VFS verbs: the statement is machine-checked FALSE "
-                   "(two witnesses, replayed on the real code: a file outside the served directory is read), proved under the "
-                   "guard 'percent signs only as canonical escapes', and proved unguarded for a two-line repair. "
-                   "_pre_open_hook: accepted URLs lie under an allowed root."),
+    "level_text": ("Proved for every byte string and every root client path, for the non-VFS verbs and for the VFS verbs "
+                   "(VfsRequest.translate_client_path as of 54ddefb), that the path handed to the OS has no '..' segment "
+                   "(never leaves the served directory). The translation before 54ddefb is machine-checked FALSE (two "
+                   "witnesses, kept as regression inputs). _pre_open_hook: accepted URLs lie under an allowed root."),
     "level_note": ("Trusted: Coq kernel, vm_compute, the hand model's correspondence (bounded: exhaustive token sequences to length "
                    "3/4 + random), the environment model of the compiled dromedary code as exercised, lexical '..' resolution "
                    "(no symlinks in the served tree), the userdir expander hypothesis (stated in the theorem)."),
@@ -323,8 +322,7 @@ def model_term(inp):
     if inp["kind"] == "jail":
         allowed = f"(Some [(0%N, {_segs(inp['root'])})])" if inp["jail"] else "None"
         return f"run_jail {allowed} ({coq_N(inp['server'])}, {_segs(inp['target'])})"
-    fixed = coq_bool(bool(os.environ.get("C31_REPAIRED")))
-    return f"run_case_T {_cb(_model_env['T'])} {fixed} {coq_bool(inp['vfs'])} {_cb(inp['rcp'])} {_cb(inp['path'])}"
+    return f"run_case_T {_cb(_model_env['T'])} {coq_bool(inp['vfs'])} {_cb(inp['rcp'])} {_cb(inp['path'])}"
 
 
 def impl_obs(inp, obs):
@@ -359,37 +357,9 @@ def oracle(inp, obs):
     return None
 
 
-def _unq(b):
-    out = bytearray()
-    i = 0
-    hexd = b"0123456789abcdefABCDEF"
-    while i < len(b):
-        if b[i] == 37 and i + 2 < len(b) and b[i + 1] in hexd and b[i + 2] in hexd:
-            out.append(int(b[i + 1:i + 3], 16))
-            i += 3
-        else:
-            out.append(b[i])
-            i += 1
-    return bytes(out)
-
-
-def _hidden_dotdot(path):
-    """Some level of percent-decoding of the client path has a '..' segment."""
-    s = bytes(path)
-    for _ in range(8):
-        t = _unq(s)
-        if t == s:
-            return False
-        s = t
-        if b".." in s.split(b"/"):
-            return True
-    return False
-
-
 def finding_matches(fid, inp, obs, why):
-    if fid == "C31-vfs-encoded-dotdot":
-        return (inp.get("kind") == "path" and bool(inp.get("vfs")) and b"%" in bytes(inp["path"])
-                and _hidden_dotdot(inp["path"]))
+    # C31-vfs-encoded-dotdot is fixed in /repo (54ddefb); a fixed entry suppresses nothing and
+    # nothing is excused here: any oracle failure is a violation.
     return False
 
 
